@@ -377,6 +377,8 @@ def to_unitless(value, new_unit=None):
             and value.dtype != object
         ):
             return value
+        if value.ndim == 0:  # not iterable
+            return to_unitless(value[()], new_unit)
         return np.array([to_unitless(elem, new_unit) for elem in value])
     elif isinstance(value, dict):
         new_value = dict(value.items())  # value.copy()
